@@ -149,6 +149,24 @@ def pow2(k):
     return 1 << k
 
 
+def per_iteration_value(fr, effs, vec):
+    """(value, iterator) when `vec` holds exactly one value per iteration of one loop, in order, built either way:
+         let mut v = Vec::new(); for x in it { v.push(value) }          it.map(|x| value).collect()
+       None otherwise (several pushes, a conditional push, nested loops, a lazy map …)"""
+    vec = P.norm(vec)
+    if isinstance(vec, tuple) and vec and vec[0] == "map" and len(vec) >= 3 and isinstance(vec[2], tuple) and vec[2] and vec[2][0] == "closure":
+        val = fr.closure_ret(vec[2], [fr.elem(vec[1])], site_hint=vec[3] if len(vec) > 3 else None)
+        return P.norm(val), P.norm(vec[1])
+    nm = P.call_name(vec) or ""
+    if nm.endswith(("Vec::<T>::new", "Vec::<T>::with_capacity")):
+        cs = T.contents(effs, vec)
+        if len(cs) == 1 and cs[0][0] == "one":
+            lp = loops_of(cs[0][2])
+            if len(lp) == 1 and not uncond_problems(cs[0][2]):
+                return P.norm(cs[0][1]), P.norm(lp[0])
+    return None
+
+
 def ok_members(t):
     """non-error members of a Result-valued return term (drops `?` residuals and Err(..) values)"""
     if isinstance(t, tuple) and t and t[0] == "phi":
